@@ -876,7 +876,7 @@ def check_charges_and_dipole(ctx, rid, parts=("charges", "dipole")):
                       f"{method}, {'open' if open_shell else 'closed'} shell: reported atomic charges are not core charge minus the atom's block-diagonal population of the reported density "
                       f"(wrong spin block / orbital count / sign)")
     # ---- dipole
-    if "dipole" not in parts:
+    if "dipole" not in parts and "padding" not in parts:
         return
     dp = repo.mod("seqm/seqm_functions/dipole.py")
     cg = dp.func("calc_ground_dipole")
@@ -901,6 +901,24 @@ def check_charges_and_dipole(ctx, rid, parts=("charges", "dipole")):
         fac = I.global_value(dp, "to_debye") * I.global_value(dp, "debye_to_AU")
         dip = mol.dipole
         ok = getattr(dip, "shape", None) == (2, 3)
+        if "padding" in parts:
+            # non-interference: the dipole of a molecule is a polynomial in its own real atoms' coordinates and density; the coordinates stored in a padding slot
+            # (molecule 1, slot 2) and the other molecule's data must not occur in it
+            leaks = []
+            if ok:
+                for m in range(2):
+                    fs = set().union(*[sp.sympify(dip[m, d]).free_symbols for d in range(3)])
+                    pad = sorted(str(x) for x in fs if str(x).startswith("r1_2_"))
+                    other = sorted(str(x) for x in fs if str(x).startswith((f"r{1 - m}_", f"a{1 - m}_", f"b{1 - m}_")))
+                    if pad:
+                        leaks.append(f"the dipole of molecule {m} depends on the coordinates stored in a padding slot ({', '.join(pad[:3])})")
+                    if other:
+                        leaks.append(f"the dipole of molecule {m} depends on data of its batch mate ({', '.join(other[:3])})")
+            ctx.check(ok and not leaks, rid, dp, cg, "calc_ground_dipole", f"padding transparency[{'open' if open_shell else 'closed'} shell]",
+                      f"{'open' if open_shell else 'closed'}-shell dipole of each molecule of a padded batch is a function of its own real atoms only (no padding-slot coordinate, no batch-mate symbol occurs in it)",
+                      "; ".join(leaks) if leaks else "calc_ground_dipole does not return one dipole vector per molecule")
+        if "dipole" not in parts:
+            continue
         if ok:
             for m in range(2):
                 for d in range(3):
@@ -2345,14 +2363,20 @@ def interpreted_langevin_coefficients(repo):
         msgs.append("initialize() of the Langevin engine does not run the parent initialisation")
     first = dict(seen)
     msgs += coefficient_errors(seen, dt, damp, T, w, "fresh driver")
-    # (b) same object, new settings
+    # (b) same object, later initialisations: every input changed alone (a memo keyed on some of them must not survive a change of the others), then all together
     dt2, damp2, T2, w2 = setting("b")
-    selfobj.timestep, selfobj.damp, selfobj.Temp = dt2, damp2, T2
-    seen2, err = run_init(selfobj, molecule(w2))
-    if seen2 is None:
-        msgs.append("second " + err)
-    else:
-        msgs += coefficient_errors(seen2, dt2, damp2, T2, w2, "second initialize() on the same driver after its time step / damping time / temperature / masses changed")
+    cur = [dt, damp, T, w]
+    for pos, (val, what_) in enumerate(((w2, "the masses"), (dt2, "the time step"), (damp2, "the damping time"), (T2, "the target temperature"))):
+        cur[{0: 3, 1: 0, 2: 1, 3: 2}[pos]] = val
+        selfobj.timestep, selfobj.damp, selfobj.Temp = cur[0], cur[1], cur[2]
+        seen2, err = run_init(selfobj, molecule(cur[3]))
+        if seen2 is None:
+            msgs.append("later " + err)
+            break
+        errs_ = coefficient_errors(seen2, cur[0], cur[1], cur[2], cur[3], f"later initialize() on the same driver after only {what_} changed")
+        msgs += errs_
+        if errs_:
+            break
     # (c) no damping time
     plain = Instance(md, "Molecular_Dynamics_Langevin", timestep=dt, damp=None, Temp=T)
     seen3, err = run_init(plain, molecule(w))
